@@ -342,7 +342,20 @@ func c10Exec(op []string) string {
 	ctx, cancelCtx := context.Background(), func() {}
 	mode := cfg.Str("ctx", "none")
 	if mode != "none" {
-		ctx, cancelCtx = context.WithCancel(context.Background())
+		switch cfg.Str("ck", "c") {
+		case "d": // a context with a DEADLINE: already past (ctx=pre: Err() = DeadlineExceeded) or far away, ended by its cancel
+			if mode == "pre" {
+				ctx, cancelCtx = context.WithDeadline(context.Background(), time.Unix(1, 0))
+			} else {
+				ctx, cancelCtx = context.WithTimeout(context.Background(), time.Hour)
+			}
+		case "v": // a derived context (value context on top of a cancel context)
+			var inner context.Context
+			inner, cancelCtx = context.WithCancel(context.Background())
+			ctx = context.WithValue(inner, c10CtxKey{}, 1)
+		default:
+			ctx, cancelCtx = context.WithCancel(context.Background())
+		}
 	}
 	endCtx := func() {
 		ev.fire("xa", "xa")
@@ -726,6 +739,8 @@ func c10Nested() (bad int) {
 	return bad
 }
 
+type c10CtxKey struct{}
+
 type c10NoWriter struct{}
 
 func (c10NoWriter) Write(int) {}
@@ -754,6 +769,7 @@ type c10Cfg struct {
 	api    string
 	ws     string // text of w= if it is not the plain effective count: "def", "0", "-3", "5,2" (w = the effective count)
 	co     int    // position of the WithContext option + 1 (0 = default: last)
+	ck     string // kind of the context: "" / "c" cancel context, "d" deadline context, "v" derived value context
 	n, w   int
 	ctx    string
 	gp, gx int
@@ -795,6 +811,9 @@ func (c c10Cfg) String() string {
 	if c.co > 0 && c.ctx != "none" {
 		line += " co=" + strconv.Itoa(c.co-1)
 	}
+	if c.ck != "" && c.ck != "c" && c.ctx != "none" {
+		line += " ck=" + c.ck
+	}
 	return line
 }
 
@@ -822,6 +841,10 @@ func c10Vary(r *verifh.Rng, c c10Cfg) c10Cfg {
 	case 3:
 		if c.ctx != "none" {
 			c.co = 1 // WithContext first
+		}
+	case 6, 7:
+		if c.ctx != "none" {
+			c.ck = r.PickS("d", "v")
 		}
 	case 4, 5:
 		if c.api == "mr" && c.gp < 0 {
@@ -1897,6 +1920,7 @@ func c10ParseLineAny(line string) (c10Cfg, bool) {
 	if co := cfg.Int("co", -1); co >= 0 {
 		c.co = co + 1
 	}
+	c.ck = cfg.Str("ck", "")
 	return c, true
 }
 
@@ -2022,9 +2046,20 @@ func c10Unit(op []string) string {
 			}
 			opts = append(opts[:k:k], append([]Option{WithContext(given)}, opts[k:]...)...)
 		}
+		type key2 struct{}
+		given2 := context.WithValue(context.Background(), key2{}, 2)
+		if p := cfg.Str("ctx2", "none"); p != "none" {
+			k := verifh.Atoi(p)
+			if k < 0 || k > len(opts) {
+				k = len(opts)
+			}
+			opts = append(opts[:k:k], append([]Option{WithContext(given2)}, opts[k:]...)...)
+		}
 		o := buildOptions(opts...)
 		c := "other"
 		switch o.ctx {
+		case given2:
+			c = "given2"
 		case given:
 			c = "given"
 		case context.Background():
@@ -2073,6 +2108,8 @@ func c10UnitGen(r *verifh.Rng) []verifh.Section {
 		}
 		for k := 0; k <= n; k++ {
 			ops = append(ops, fmt.Sprintf("unit opts w=%s ctx=%d", w, k))
+			// two WithContext options: the one applied last wins
+			ops = append(ops, fmt.Sprintf("unit opts w=%s ctx=%d ctx2=%d", w, k, r.Range(0, n+1)))
 		}
 	}
 	for _, k := range []int{0, 1, 5} {
